@@ -91,6 +91,51 @@ Proof.
     intros y Hy. apply Hr in Hy. cbn in Hlen. lia.
 Qed.
 
+(** ---- the repaired routine (clipped teeth, loop bound at the last non-zero weight) ---- *)
+Lemma drop_zeros_length l : length (drop_zeros o l) <= length l.
+Proof. induction l as [|x r IH]; cbn; [lia|]. destruct (is_zero o x); cbn; lia. Qed.
+
+Lemma upto_last_nonzero_length w : length (upto_last_nonzero o w) <= length w.
+Proof.
+  unfold upto_last_nonzero. destruct (drop_zeros o (rev w)) as [|y r] eqn:E; [lia|].
+  rewrite rev_length. pose proof (drop_zeros_length (rev w)) as H. rewrite E, rev_length in H. exact H.
+Qed.
+
+Lemma upto_last_nonzero_nonempty w : w <> [] -> upto_last_nonzero o w <> [].
+Proof.
+  intro Hw. unfold upto_last_nonzero. destruct (drop_zeros o (rev w)) as [|y r] eqn:E; [exact Hw|].
+  intro C. apply (f_equal (@length T)) in C. rewrite rev_length in C. cbn in C. lia.
+Qed.
+
+Lemma cpositions_length u0 size : length (cpositions o u0 size) = size.
+Proof. unfold cpositions. now rewrite map_length, seq_length. Qed.
+
+(** C06, clause "exactly n valid indices, non-decreasing", for the routine as it is now, for EVERY arithmetic (Q and
+    binary64 alike), every non-empty weight vector, every value [s] of the sum and every offset; moreover no index
+    beyond the last non-zero weight is ever returned. *)
+Theorem sysres2_total_valid size w s sqrteps u0 :
+  w <> [] ->
+  exists idx, sysres2_with_sum o true size w s sqrteps u0 = Some idx
+    /\ length idx = size
+    /\ (forall x, In x idx -> x < length (upto_last_nonzero o (if renorm_needed o s sqrteps then renorm o w s else w)))
+    /\ (forall x, In x idx -> x < length w)
+    /\ nondecreasing idx.
+Proof.
+  intros Hw. unfold sysres2_with_sum.
+  set (w' := if renorm_needed o s sqrteps then renorm o w s else w).
+  assert (Hlen : length w' = length w).
+  { subst w'. destruct (renorm_needed o s sqrteps); [unfold renorm; now rewrite map_length|reflexivity]. }
+  assert (Hw' : w' <> []). { intro C. rewrite C in Hlen. destruct w; [congruence|discriminate]. }
+  pose proof (upto_last_nonzero_length w') as Hle.
+  pose proof (upto_last_nonzero_nonempty w' Hw') as Hne.
+  destruct (upto_last_nonzero o w') as [|x r] eqn:Eu; [congruence|].
+  destruct (comb_bounded_some (cpositions o u0 size) r 0 x) as (out & Eo).
+  exists out. split; [exact Eo|]. apply comb_some_inv in Eo. destruct Eo as (Hl & Hr & Hn).
+  rewrite cpositions_length in Hl. split; [exact Hl|]. split; [|split; [|exact Hn]].
+  - intros y Hy. apply Hr in Hy. cbn. lia.
+  - intros y Hy. apply Hr in Hy. cbn in Hle. lia.
+Qed.
+
 (** Whenever the unrepaired loop does return, it returns the same thing. *)
 Lemma advance_unbounded_agrees rest p j cum r :
   advance o false rest p j cum = Some r -> advance o true rest p j cum = Some r.
